@@ -222,6 +222,9 @@ def build_props(prop_id, models=()):
     every call so that its `Print Assumptions` output is captured.
     Returns dict(ok, log, obligations, discharged, axioms, translator_errors, theorems)."""
     terr = translate()
+    # a translator that rejects its source matters for the properties whose theorems depend on the generated file
+    mine = set(re.findall(r"Gen/(Gen\w+\.v)", " ".join(TRANSLATED.get(prop_id, []))))
+    terr = {g: e for g, e in terr.items() if g in mine}
     src = os.path.join(THEORIES, "Props", prop_id + ".v")
     text = open(src).read()
     theorems = re.findall(r"^(?:Theorem|Corollary)\s+(\w+)", text, re.M)
@@ -550,19 +553,19 @@ TRANSLATED = {
     "C02": ["tr_important.py -> Gen/GenImportant.v (prefer_important, is_marked_important, remove_important)"],
     "C04": ["tr_termination.py -> Gen/GenTermination.v (TerminationCheck)"],
     "C05": ["tr_regex.py -> Gen/GenRegex.v (every re.compile of rebench/interop, parsed with CPython's re._parser)"],
-    "C06": ["tr_facts.py -> Gen/GenFacts.v (header_iff_empty, persist_locked)"],
+    "C06": ["tr_facts.py -> Gen/GenFactsPersist.v (header_iff_empty, persist_locked)"],
     "C07": ["tr_identity.py -> Gen/GenIdentity.v (as_dict / from_dict / __init__ / __eq__ of six identity classes)"],
-    "C08": ["tr_termination.py -> Gen/GenTermination.v", "tr_facts.py -> Gen/GenFacts.v (load_before_execute, close_in_finally)"],
-    "C09": ["tr_facts.py -> Gen/GenFacts.v (persist_locked)"],
+    "C08": ["tr_termination.py -> Gen/GenTermination.v", "tr_facts.py -> Gen/GenFactsSession.v (load_before_execute, close_in_finally)"],
+    "C09": ["tr_facts.py -> Gen/GenFactsPersist.v (persist_locked)"],
     "C10": ["tr_termination.py -> Gen/GenTermination.v"],
-    "C11": ["tr_termination.py -> Gen/GenTermination.v", "tr_facts.py -> Gen/GenFacts.v (persist_locked)"],
+    "C11": ["tr_termination.py -> Gen/GenTermination.v", "tr_facts.py -> Gen/GenFactsPersist.v (persist_locked)"],
     "C12": ["tr_regex.py -> Gen/GenRegex.v"],
-    "C13": ["tr_termination.py -> Gen/GenTermination.v", "tr_facts.py -> Gen/GenFacts.v (build_locked)"],
-    "C14": ["tr_facts.py -> Gen/GenFacts.v (replace_atomic)"],
+    "C13": ["tr_termination.py -> Gen/GenTermination.v", "tr_facts.py -> Gen/GenFactsBuild.v (build_locked)"],
+    "C14": ["tr_facts.py -> Gen/GenFactsRewrite.v (replace_atomic)"],
     "C15": ["tr_welford.py -> Gen/GenWelford.v (StatisticProperties.add_sample over an abstract arithmetic signature)"],
-    "C16": ["tr_facts.py -> Gen/GenFacts.v (kill_cond, kill_then_raise, nokill_raises, pids_before_kill, collect_recursive)",
+    "C16": ["tr_facts.py -> Gen/GenFactsKill.v (kill_cond, kill_then_raise, nokill_raises, pids_before_kill, collect_recursive)",
             "tr_termination.py -> Gen/GenTermination.v (classification of exit status -9)"],
-    "C20": ["tr_facts.py -> Gen/GenFacts.v (restore_in_finally)"],
+    "C20": ["tr_facts.py -> Gen/GenFactsSession.v (restore_in_finally)"],
 }
 AXIOM_NOTES = {
     "C15": "standard-library real-number axioms (ClassicalDedekindReals.sig_forall_dec, sig_not_dec, functional_extensionality_dep, classic)",
